@@ -9,7 +9,8 @@ Open Scope Z_scope.
 (* REFINEMENT.  For every pool of finite and periodic streams (Stream(list),
    Stream(a, b, ..), Stream(a)) and every history of any length (next take peek
    skip limit copy append (of a list, of periodic values, of an existing Stream
-   or hub) map filter thub Stream(hub) tee, any counts): whenever the
+   or hub) multi-argument Stream(a, b, ..) / append(a, b, ..) over existing objects
+   and fresh lists, map filter thub Stream(hub) tee, refused calls, any counts): whenever the
    implementation-level model (iterator objects, shared tee buffers) finishes
    every call within its fuel, every observable - returned container / item /
    StopIteration / IndexError / AttributeError / ids of new objects - equals the
@@ -24,7 +25,8 @@ Proof. exact refines_list_model. Qed.
 Print Assumptions C03_refines_list_model.
 
 (* Over FINITE sources no fuel hypothesis is needed: iterators always halt, so
-   from some amount of fuel on the two runs coincide. *)
+   from some amount of fuel on the two runs coincide.  ([fin_op] leaves out appended periodic
+   values and the multi-argument operation OMulti, which the theorem above covers.) *)
 Theorem C03_refines_list_model_finite_total : forall ps ops,
   Forall fin_pool ps -> Forall fin_op ops ->
   exists f0, forall fuel, (f0 <= fuel)%nat ->
@@ -35,7 +37,7 @@ Print Assumptions C03_refines_list_model_finite_total.
 (* copies / tee outputs / hub uses are independent: operations on OTHER objects
    never change what an object will yield, in any interleaving *)
 Theorem C03_copies_independent : forall ops st j e,
-  nth_error st j = Some e -> Forall (fun o => target o <> Some j /\ arg o <> Some j) ops ->
+  nth_error st j = Some e -> Forall (fun o => target o <> Some j /\ ~ In j (uses o)) ops ->
   nth_error (final st ops) j = Some e.
 Proof. exact copies_independent. Qed.
 Print Assumptions C03_copies_independent.
@@ -45,7 +47,7 @@ Theorem C03_copy_same_sequence : forall st i s, nth_error st i = Some (EStream s
 Proof. exact copy_same_sequence. Qed.
 Print Assumptions C03_copy_same_sequence.
 
-Theorem C03_step_local : forall st1 st2 o i, target o = Some i -> arg o = None ->
+Theorem C03_step_local : forall st1 st2 o i, target o = Some i -> uses o = [] ->
   nth_error st1 i = nth_error st2 i -> List.length st1 = List.length st2 ->
   snd (step st1 o) = snd (step st2 o).
 Proof. exact step_local. Qed.
@@ -129,6 +131,16 @@ Print Assumptions C03_append_hub_charges_use.
 Theorem C03_mutating_a_result_changes_nothing : forall st m, step st (OMutateResult m) = (st, OSelf).
 Proof. exact mutating_a_result_changes_nothing. Qed.
 Print Assumptions C03_mutating_a_result_changes_nothing.
+
+(* multi-argument construction: a hub among the arguments is charged exactly one use, at construction *)
+Theorem C03_multi_hub_charged_at_construction : forall st j s u l, nth_error st j = Some (EHub s u) ->
+  step st (OMulti None [MObj j; MFresh l]) =
+  match u with
+  | S u' => (set_nth j (EHub s u') st ++ [EStream (lappend s (fin l))], ONew (List.length st))
+  | O => (st, ORaise "IndexError")
+  end.
+Proof. exact multi_hub_charged_at_construction. Qed.
+Print Assumptions C03_multi_hub_charged_at_construction.
 
 (* error paths: a refused call changes nothing (hub uses, remaining sequences of every object) *)
 Theorem C03_refused_call_changes_nothing : forall st e, step st (ORefused e) = (st, ORaise e).
